@@ -253,6 +253,58 @@ def run(prop, tier, seed, backends=BACKENDS, only_universe=None):
     return out
 
 
+def _shape(f):
+    return "+".join(sorted([k for k in ("ids", "authors", "kinds", "since", "until") if k in f] + ["#" + n for n in f.get("tags", {})]))
+
+
+def _skeleton_check(out, jobs):
+    """C01 'filters are pure data': TLC evaluates Query.tla StatementsAreData on the <<shape, skeleton>> pairs observed"""
+    from .. import tlc
+
+    skel_ids = {}
+    pairs = set()
+    examples = {}
+    for js in jobs:
+        for tr in js["traces"]:
+            for ln in tr:
+                if ln["a"] != "Query" or ln.get("_raw") or len(ln["fs"]) != 1 or ln.get("_skel") is None:
+                    continue
+                shape = js["backend"] + ":" + _shape(ln["fs"][0])
+                sid = skel_ids.setdefault(ln["_skel"], len(skel_ids) + 1)
+                pairs.add((shape, sid))
+                examples.setdefault((shape, sid), (js["palette"], ln["fs"], js["uni"].conc_filter(ln["fs"][0]), ln["_skel"]))
+    if not pairs:
+        raise tlc.TlcError("no statement skeletons were observed (the spy did not see any statement)")
+    text = ("---- MODULE SkelCheck ----\nEXTENDS Integers, Sequences, FiniteSets, TLC, Json\nCONSTANTS Universe, MaxLimit, OneCharNames\n"
+            "INSTANCE Query\nP == %s\nASSUME PrintT(\"@@\" \\o ToJson([ok |-> StatementsAreData(P), bad |-> OffendingShapes(P)]))\n"
+            "VARIABLE x\nSpec == x = 0 /\\ [][x' = x]_x\n====\n" % tlc.tla(pairs))
+    with tlc.Workdir(prefix="skel-") as wd:
+        wd.write("SkelCheck.tla", text)
+        cfg = wd.write("SkelCheck.cfg", "SPECIFICATION Spec\nCONSTANT Universe = {}\nCONSTANT MaxLimit = 0\nCONSTANT OneCharNames = {}\n")
+        res = tlc.run_tlc(wd, "SkelCheck", cfg, workers=1, timeout=300)
+    verdict = list(tlc.printed_json(res["out"]))
+    if not verdict:
+        raise tlc.TlcError("skeleton check failed to run: " + tlc.tlc_failed_how(res["out"]))
+    out.notes["statement_skeletons"] = {"pairs": len(pairs), "shapes": len({p[0] for p in pairs}), "distinct_skeletons": len(skel_ids)}
+    if not verdict[0]["ok"]:
+        for shape in verdict[0]["bad"]:
+            exs = [examples[p] for p in pairs if p[0] == shape][:3]
+            what = ("C01 StatementsAreData violated for filter shape %s: the statement handed to the storage engine depends on "
+                    "the filter's values: %s" % (shape, [(e[0], e[2], e[3][:300]) for e in exs]))
+            out.violation(what, {"formula": "C01_StatementsAreData", "shape": shape, "backend": shape.split(":")[0], "line": {}},
+                          lambda p, exs=exs, shape=shape: _dump_skel(p, shape, exs))
+
+
+def _dump_skel(path, shape, exs):
+    import json
+    import os
+
+    os.makedirs(os.path.dirname(path), exist_ok=True)
+    with open(path, "w") as fp:
+        json.dump({"meta": {"property": "C01", "formula": "StatementsAreData", "shape": shape},
+                   "examples": [{"palette": e[0], "abstract": e[1], "concrete": e[2], "skeleton": e[3]} for e in exs]}, fp, indent=1, default=str)
+
+
 def _run(prop, tier, seed, backends, limited):
     out = Outcome(prop, tier, seed, "exploration" if prop == "C01" else "model_checking")
     for key, fn in MATCHERS.get(prop, {}).items():
@@ -287,7 +339,13 @@ def _run(prop, tier, seed, backends, limited):
             sc = scripts + [pre + tuple(("rawquery", c, a) for c, a in mal[b:b + 150]) for b in range(0, len(mal), 150)]
         for backend in backends:
             jobs.append({"uni": uni, "backend": backend, "scripts": sc, "palette": pal, "max_limit": max_limit})
-    all_traces = pool.run_many(jobs, config=config, chunk=2)
+    import os
+    if prop == "C01":
+        os.environ["VERIF_SPY_SKELETONS"] = "1"
+    try:
+        all_traces = pool.run_many(jobs, config=config, chunk=2)
+    finally:
+        os.environ.pop("VERIF_SPY_SKELETONS", None)
     for js, traces in zip(jobs, all_traces):
         js["traces"] = traces
     results = trace.validate_many(jobs, batch=4)
@@ -324,6 +382,8 @@ def _run(prop, tier, seed, backends, limited):
                               trace.dump_replay(p, {"property": prop, "backend": backend, "line": b[1], "store": sorted(store),
                                                     "concrete_filters": [uni.conc_filter(f) for f in ln["fs"]]},
                                                 uni, [x for x in tr[:b[1]] if x["a"] != "Query"] + [ln], [b]))
+    if prop == "C01":
+        _skeleton_check(out, jobs)
     out.cov["evaluations"] = nq
     out.cov["distinct_nontrivial"] = len(distinct)
     out.cov["rule"] = ("every filter of the grammar (ids x authors x kinds x tag conditions with at most two of them set, x since/until at "
